@@ -1504,3 +1504,23 @@ def r08m(ctx, rep, rule="R08m"):
                 "%s(%s, %s) multiplies / divides the to_f64 conversion of the bignum operand: beyond 1.8e308 that is infinity, and so "
                 "is the answer, although the true result is a finite double" % (name, pr[0], pr[1]), bad or [fn.span])
     rep.floor(rule, "bignum-with-small-operand arms of * and /", n, 4)
+
+
+def r08n(ctx, rep, rule="R08n"):
+    """a rational is raised exactly, then rounded"""
+    facts = ctx["facts"]
+    rep.rule(rule, "a power is rounded once: raising the float nearest to a rational multiplies that rounding error by the exponent "
+             "(relative error about exp x 2^-53: (expt 4/3 2400) was off by 2^-43, past the 2^-50 C08 allows a fallback). In the "
+             "Rational arm of Number::pow no float power function (powf / powi) is applied; the fallback converts the exact power.")
+    fn = need(rep, rule, facts, "marwood::number::Number::pow")
+    if fn is None:
+        return
+    reg = number_arms(facts, fn, unary=True).get(("Rational",))
+    if not reg:
+        rep.anchor_lost(rule, "Rational arm of Number::pow")
+        return
+    bad = [loc for c, fa, loc, bb, t in region_facts(fn, reg)["calls"] if re.search(r"f64>?::(powf|powi)$", c or "") or re.search(r"f64>?::(powf|powi)$", fa)]
+    key = rule + "|pow|Rational"
+    (rep.ok if not bad else rep.fail)(
+        rule, key, "pow(Rational) applies no float power function" if not bad else
+        "pow(Rational) raises a float with powf/powi: the base was rounded first and the error grows with the exponent", bad or [fn.span])
